@@ -82,18 +82,23 @@ def main():
     rep.rule("24 instantiations (length uint8/16/32/64 x element char/uint8/int8 x little/big endian); exhaustive DFS "
              "over every operation/argument choice (push_back, pop_back, 5 insert overloads, 2 erase overloads, 3 resize "
              "overloads, 4 assign overloads, assign_string, assign_range, clear; positions 0..size, counts 0..2, inputs "
-             "of length 0..2 over {a,b}) to depth %d from each of the 15 states of size <= 3, then %d seeded random "
+             "of length 0..2 over {a,b}) to depth %d (thorough: depth 3 under three configurations, depth 2 under the other ten) "
+             "from each of the 15 states of size <= 3, then %d seeded random "
              "operations per instantiation up to size 200 (uint8: up to max_size 255). A transition is one operation "
              "compared with std::vector (prefix, payload, returned iterator, canaries, untouched tail, read API). "
              "distinct_nontrivial = distinct (operation kind, instantiation) pairs that executed at least once."
              % (depth, random_ops))
     cfgs = configs(rep.tier)
-    jobs = [(cfg, ln) for cfg in cfgs for ln in range(4)]
+    # the depth-3 DFS costs ~100x the depth-2 one; thorough runs it under three representative configurations
+    # (checked ASan+UBSan, unchecked -O2 of each compiler) and depth 2 under the others
+    deep = {str(c) for c in cfgs if (c.cxx, c.std, c.mode) in (("g++", "17", "san"), ("clang++", "23", "plain"), ("g++", "11", "plain"))}
+    jobs = [(cfg, ln, depth if (quick or str(cfg) in deep) else 2) for cfg in cfgs for ln in range(4)]
+    exp_by_depth = {d: expected_dfs(d) for d in {j[2] for j in jobs}}
 
     def one(job):
-        cfg, ln = job
+        cfg, ln, jdepth = job
         c = build.Cfg(cfg.cxx, cfg.std, cfg.mode,
-                      cfg.defs + ("C13_DEPTH=%d" % depth, "C13_RANDOM_OPS=%d" % random_ops, "C13_LEN=%d" % ln), cfg.extra)
+                      cfg.defs + ("C13_DEPTH=%d" % jdepth, "C13_RANDOM_OPS=%d" % random_ops, "C13_LEN=%d" % ln), cfg.extra)
         ok, exe, out = build.compile_driver(src, c, name="c13")
         if not ok:
             return job, None, out
@@ -101,7 +106,7 @@ def main():
         return job, (rc, to), o.decode(errors="replace")
 
     results = C.pmap(one, jobs)
-    for (cfg, ln), st, out in results:
+    for (cfg, ln, jdepth), st, out in results:
         tag = "%s/len=%s" % (cfg, LEN_NAMES[ln])
         if st is None:
             raise C.HarnessError("C13 driver does not compile under %s:\n%s" % (tag, out[-3000:]))
@@ -126,8 +131,8 @@ def main():
                           {"config": str(cfg), "output": out[-4000:]})
         if m:
             tr, ro, mism = int(m.group(1)), int(m.group(2)), int(m.group(5))
-            if mism == 0 and tr - ro != exp_dfs:
-                rep.inconc("%s: DFS observed %d transitions, grammar has %d" % (tag, tr - ro, exp_dfs))
+            if mism == 0 and tr - ro != exp_by_depth[jdepth]:
+                rep.inconc("%s: DFS observed %d transitions, grammar has %d" % (tag, tr - ro, exp_by_depth[jdepth]))
             rep.evaluation(tr)
             rep.count("transitions", tr)
             rep.count("random_ops", ro)
